@@ -176,6 +176,13 @@ def judge(case):
         find_root = parse_program(code)
         root_kw, find_code = {'root': find_root}, code
         classes.append('explicit-program')
+    elif case.get('verified_other'):
+        # the submission is `code`, but the Source tool was last asked to verify some other text: questions without root= are still about `code`
+        from pedal.source import verify
+        contextualize_report(code)
+        verify(OTHER_SUBMISSION)
+        MAIN_REPORT.feedback.clear()
+        classes.append('other-text-verified')
     else:
         contextualize_report(code)
     state = {'nontrivial': False, 'amb': 0}
@@ -340,9 +347,9 @@ def judge(case):
 
 
 def programs(tier):
-    return st.builds(lambda code, explicit: {'code': code, 'explicit': explicit} if explicit else {'code': code},
+    return st.builds(lambda code, how: dict({'code': code}, **({how: True} if how else {})),
                      st.one_of(G.any_valid_program(stdlib=False), G.any_valid_program(stdlib=False), G.valid_commented_program()),
-                     st.sampled_from([False, False, True]))
+                     st.sampled_from([None, None, 'explicit', 'verified_other']))
 
 
 def corpus_cases(tier):
